@@ -535,6 +535,14 @@ def minimize_subcircuits(
             for i, row in enumerate(subcircuit.evaluate_truth_table_with_dont_cares())
             if subcircuit.outputs[i] in filtered_outputs
         ]
+        # Only the gates feeding the non-trivial outputs are going to be replaced, so
+        # the size to beat must not count the other gates of the cone.
+        size = sum(
+            1
+            for label in filtered_outputs_lst
+            + _get_internal_gates(circuit, inputs, filtered_outputs_lst)
+            if circuit.get_gate(label).gate_type.name != 'NOT'
+        )
         try:
             new_subcircuit: Circuit = CircuitFinderSat(
                 TruthTableModel(outputs_tt),
